@@ -116,6 +116,19 @@ def run(ctx, only=None):
     ctx.suite("journal.monitor", failures_unknown=unknown,
               failures_known=sum(1 for k, _, _ in fails if k is not None))
 
+    # ---------------- durability of a fresh completion on a journal whose INSERT takes time
+    sw = []
+    for which in (0, 1):
+        why, facts = J.slow_write_case(dbs, which)
+        sw.append(facts)
+        ctx.count(1, ("journal-slow-write", which, facts.get("returned_before_the_write_landed")))
+        if why:
+            ctx.violation("C27 fails on the implementation: %s" % why,
+                          dict(kind="implementation-monitor", suite="journal.slow_write", input=facts,
+                               replay_hint="suites.journal.slow_write_case(dbs, which) on the real InternalDBOSAdapter + SqliteJournalCrud "
+                                           "whose insert takes 5 virtual seconds"))
+    ctx.suite("journal.slow_write", cases=2, observations=sw)
+
     # ---------------- the refutation witness (Proofs/JournalProofs.v timeout_divergence) on the real code
     ok_first, diverges, as_model, detail = J.witness_timeout(dbs)
     ctx.suite("journal.witness", first_run_as_expected=ok_first, diverges=diverges, matches_model=as_model)
